@@ -1,8 +1,8 @@
 (* BrokerGenRun.v — the broker's event loop with the methods TRANSLATED from the Python source plugged in
    (BrokerGen.v), and the theorem that it is the model the property theorems are about: run_src = run.
-   Hand-written here (as in Broker.v): the frame loop of process_pending (on fuel; a bad header closes), the object before
-   connection_made (PyBroker.p_new_conn), which queued completion a LookupDone event runs, what asyncio does with an
-   exception that escapes a callback, EOF, the write-side callbacks and the deadline timer.
+   Hand-written here (as in Broker.v): the fuel that bounds process_pending's loop and nesting, the object before
+   connection_made (PyBroker.p_new_conn), which queued completion a LookupDone event runs, when asyncio makes which callback
+   (the transport contract), what it does with an exception that escapes one, EOF, one Tick = one second of each deadline.
    Uses functional extensionality through BrokerGenEq.v. *)
 From Coq Require Import ZArith List Bool Arith Lia.
 From Coq Require Import Strings.Byte.
@@ -16,31 +16,23 @@ Variable bname : bytes.
 Variable store : ident -> lookup.
 Variable async_store : bool.
 
+(* process_pending: the translated loop body; its "again" and its nested call are process_pending with less fuel *)
 Fixpoint pp_src (fuel : nat) (q : nat) (s : state) : res :=
   match fuel with
   | O => Fuel s
-  | S f =>
-      match next limitP (buf (conns s q)) with
-      | NeedMore => Ok s
-      | Bad _ => Ok (cl q s)
-      | Ready op body rest =>
-          let s1 := modc q (set_buf rest) s in
-          match to_resb (Connection_message_received store async_store (pp_src f) q op body s1) with
-          | (Ok s2, true) => Ok s2
-          | (Ok s2, false) => pp_src f q s2
-          | (r, _) => r
-          end
-      end
+  | S f => to_res (BaseProtocol_process_pending store async_store (pp_src f) q s)
   end.
 Definition ppq_src (q : nat) (s : state) : res := pp_src (S (length (buf (conns s q)))) q s.
 
+(* data_received: asyncio calls it only on a transport that is open and reading; an exception that escapes aborts the
+   transport *)
 Definition do_data_src (q : nat) (chunk : bytes) (s : state) : state :=
   let c := conns s q in
   if can_read c then
-    match ppq_src q (modc q (set_buf (buf c ++ chunk)) s) with
-    | Ok s2 => s2
-    | Raise s2 => abort q s2
-    | Fuel s2 => s2
+    match Connection_data_received ppq_src q chunk s with
+    | BOk _ s2 => s2
+    | BRaise s2 | BProto s2 => abort q s2
+    | BFuel s2 => s2
     end
   else s.
 
@@ -48,7 +40,7 @@ Definition do_lost_src (q : nat) (s : state) : state :=
   let c := conns s q in
   if made c && negb (lost c) then
     let s1 := cl q s in
-    let s2 := match Connection_connection_lost q s1 with BOk _ s' | BRaise s' | BFuel s' => s' end in
+    let s2 := match Connection_connection_lost q s1 with BOk _ s' | BRaise s' | BFuel s' | BProto s' => s' end in
     modc q (set_lost true) s2
   else s.
 
@@ -57,32 +49,32 @@ Definition do_lookup_done_src (q : nat) (r : lres) (s : state) : state :=
   match pending (conns s q) with
   | [] => s
   | (i, dg) :: _ =>
-      match Connection_on_auth_result ppq_src q r i dg s with BOk _ s' | BRaise s' | BFuel s' => s' end
+      match Connection_on_auth_result ppq_src q r i dg s with BOk _ s' | BRaise s' | BFuel s' | BProto s' => s' end
   end.
 
 (* Connection(server) + connection_made *)
 Definition do_connect_src (q : nat) (n : bytes) (s : state) : state :=
   if made (conns s q) then s else
-  match Connection_connection_made bname q (p_new_conn q n s) with BOk _ s' | BRaise s' | BFuel s' => s' end.
+  match Connection_connection_made bname q (p_new_conn q n s) with BOk _ s' | BRaise s' | BFuel s' | BProto s' => s' end.
 
 (* asyncio calls pause_writing / resume_writing alternately (the wpaused flag is the transport's); one Tick = one second of
    every running deadline coroutine: the one whose sleep ends runs the rest of its body *)
 Definition do_pausew_src (q : nat) (s : state) : state :=
   let c := conns s q in
   if made c && negb (lost c) && negb (wpaused c) then
-    match Connection_pause_writing q (modc q (set_wpaused true) s) with BOk _ s' | BRaise s' | BFuel s' => s' end
+    match Connection_pause_writing q (modc q (set_wpaused true) s) with BOk _ s' | BRaise s' | BFuel s' | BProto s' => s' end
   else s.
 Definition do_resumew_src (q : nat) (s : state) : state :=
   let c := conns s q in
   if made c && negb (lost c) && wpaused c then
-    match Connection_resume_writing q (modc q (set_wpaused false) s) with BOk _ s' | BRaise s' | BFuel s' => s' end
+    match Connection_resume_writing q (modc q (set_wpaused false) s) with BOk _ s' | BRaise s' | BFuel s' | BProto s' => s' end
   else s.
 Definition tick1_src (s : state) (q : nat) : state :=
   match timer (conns s q) with
   | None => s
   | Some n =>
       if (n <=? 1)%nat then
-        match Connection_deadline_expired q (modc q (set_timer None) s) with BOk _ s' | BRaise s' | BFuel s' => s' end
+        match Connection_deadline_expired q (modc q (set_timer None) s) with BOk _ s' | BRaise s' | BFuel s' | BProto s' => s' end
       else modc q (set_timer (Some (n - 1)%nat)) s
   end.
 Definition do_tick_src (s : state) : state := fold_left tick1_src (rev (ids s)) s.
@@ -103,10 +95,7 @@ Definition run_src (h : list event) : state := fold_left step_src h state0.
 Lemma pp_src_eq : forall f, pp_src f = pp store async_store f.
 Proof.
   induction f as [|f IH]; apply functional_extensionality; intro q; apply functional_extensionality; intro s; [reflexivity|].
-  cbn [pp_src pp]. destruct (next limitP (buf (conns s q))) as [| |op body rest] eqn:N; try reflexivity.
-  cbv zeta. rewrite (handle_src_eq store async_store (pp_src f)).
-  - rewrite IH. reflexivity.
-  - apply (WireFacts.next_ready_inv limitP) in N. tauto.
+  cbn [pp_src pp]. rewrite BaseProtocol_process_pending_eq. unfold pp_step. rewrite IH. reflexivity.
 Qed.
 
 Lemma ppq_src_eq : ppq_src = ppq store async_store.
@@ -120,7 +109,9 @@ Proof.
   intros s [q n|q ch|q|q|q r|q|q|]; cbn [step_src step]; try reflexivity.
   - unfold do_connect_src. destruct (made (conns s q)) eqn:Hm; [unfold do_connect; rewrite Hm; reflexivity|].
     rewrite Connection_connection_made_eq by exact Hm. reflexivity.
-  - unfold do_data_src, do_data. rewrite ppq_src_eq. reflexivity.
+  - unfold do_data_src, do_data. destruct (can_read (conns s q)); [|reflexivity].
+    pose proof (Connection_data_received_eq ppq_src q ch s) as E. rewrite ppq_src_eq in E. rewrite ppq_src_eq.
+    destruct (Connection_data_received (ppq store async_store) q ch s) as [b s2|s2|s2|s2]; cbn [to_res] in E; rewrite <- E; reflexivity.
   - unfold do_lost_src, do_lost. destruct (made (conns s q) && negb (lost (conns s q))); [|reflexivity].
     cbv zeta. rewrite Connection_connection_lost_eq. destruct (copen (conns (cl q s) q)); reflexivity.
   - unfold do_lookup_done_src, do_lookup_done.
